@@ -8,16 +8,23 @@ reference written from the property text (`ref_kind`, `ref_segment`, slice/prefi
 import datetime
 import itertools
 
-from harness import common
+from harness import common, regex_common
 from harness.common import Outcome, make_rng, grid_to_json
 
 EXTRA = {
     "assumptions": [
         "rows are sequences (a `None` row is outside the domain: neither reader produces one)",
         "Python str.isspace / re \\s table: compared with CPython on all 0x110000 code points each run",
+        "Python `re`: the engine model (Model/Regex.lean: parser + backtracking matcher for the syntax subset the two "
+        "patterns are written in) is CPython's semantics — sampled against CPython each run (harness/regex_common.py: "
+        "the live patterns on all short strings, random subset patterns x random strings, all group spans)",
     ],
-    "explanation": "Theorems in Props/C03.lean hold for every row list; the model is tied to the code by "
-                   "the pinned regex text (translator) and by differential execution against parse_blocks_stable.",
+    "explanation": "Theorems in Props/C03.lean hold for every row list; the hand model `classify` is PROVED equal to "
+                   "the regex engine model run on the pattern text the translator extracts from blocks.py "
+                   "(`classify_is_marker_regex`); the model is further tied to the code by differential execution "
+                   "against parse_blocks_stable.",
+    "trusted_base": ["lean/PdtModel/Model/Regex.lean as a model of CPython `re` on its syntax subset (validated by "
+                     "sampling against CPython, not proved)"],
 }
 
 SPACES = [9, 10, 11, 12, 13, 28, 29, 30, 31, 32, 133, 160, 5760] + list(range(8192, 8203)) + \
@@ -250,6 +257,14 @@ def run(tier, seed, model_ok, translator, search=False):
     if model_ok:
         ops.append({"op": "isspace_range", "lo": 0, "hi": 0x110000})
         pending.append(("isspace", None, SPACES))
+    # (a') the regex engine model behind `classify_is_marker_regex` / `gridName_is_name_regex` vs CPython's `re`
+    regex_common.check_regex(out, make_rng(seed, "C03-regex"), tier, model_ok)
+    if search:
+        # the pattern text changed: strings on which the changed pattern (engine model) and `classify` disagree first
+        for s in regex_common.find_disagreement(regex_common.live_marker_pattern()):
+            out.count("regex:disagreement_candidates")
+            _one([["**t"], [s], ["y"]], {"classify": s}, out, ops, pending, model_ok, prefix_rng=None, record=False)
+            _one([[s], ["y"]], {"classify_top": s}, out, ops, pending, model_ok, prefix_rng=None, record=False)
 
     # (b) classifier through the API: context **t / s / y
     alpha = ["*", ":", "a", " ", "\n", "\t", "é", "\u00a0", "\x1c"] if thorough else ["*", ":", "a", " ", "\n", "é"]
